@@ -267,6 +267,9 @@ def run(ctx):
     wiring.params_used(ctx, "C02.e", wiring.funcs_of(m, "_facade", "_construction", only={"h", "h2", "h3", "calculate_nd_frequencies", "calculate_nd_bins",
                        "extract_nd_array", "extract_and_concat_arrays", "extract_weights"})
                        + [m.cls("HistogramND").methods[x] for x in ("__init__", "from_calculate_frequencies")], "h-chain:options-read")
+    wiring.same_name_forwarding(ctx, "C02.e", m, wiring.funcs_of(m, "_facade", "_construction", only={"h", "h2", "h3", "calculate_nd_frequencies", "calculate_nd_bins",
+                       "extract_nd_array", "extract_and_concat_arrays", "extract_weights"})
+                       + [m.cls("HistogramND").methods[x] for x in ("__init__", "from_calculate_frequencies")], "h-chain:options-forwarded")
     wiring.nan_gate(ctx, "C02.e", h, "calculate_nd_bins", "h:nan-gate")
     wiring.discarded_mask(ctx, "C02.e", m, only=("_facade.h2", "_facade.h3", "_construction.extract_and_concat_arrays"), floor=1)
 
